@@ -1,6 +1,7 @@
 import CkbVerif.Lemmas.Rules
 import CkbVerif.Lemmas.RulesChain
 import CkbVerif.Lemmas.RulesIndex
+import CkbVerif.Lemmas.RulesBody
 
 /-!
 # C03 — a block joins the main chain iff it meets every consensus rule in its context
@@ -523,5 +524,229 @@ theorem main_chain_uncles_valid_in_index_context_partial (cfg : Cfg) (g : Blk) (
     intro r hr
     exact hcr r (by simp only [contextualRules, List.mem_append]; grind)
   rw [unclesCheck_eq]; exact this
+
+/-! ## round 5: the block body inside the model (cellbase / duplicate / reward-probe / extension rules) -/
+
+open CkbVerif.Gen.RulesBody in
+/-- `ScriptHashType::try_from(byte)` succeeds exactly for `1` (`Type`) and the even bytes
+(`Data = 0`, `Data1 = 2`, `Data2 = 4`, `DataN = N << 1`, `N ≤ 127`). -/
+theorem hash_type_known_iff (v : Nat) : hashTypeKnown v = true ↔ v = 1 ∨ (v % 2 = 0 ∧ v ≤ 254) := by
+  unfold hashTypeKnown
+  simp only [HASH_TYPE_TYPE, HASH_TYPE_DATA, HASH_TYPE_DATA1, HASH_TYPE_DATA2, HASH_TYPE_DATA_N_SHIFT,
+    HASH_TYPE_DATA_N_FIRST, HASH_TYPE_DATA_N_LAST, Bool.or_eq_true, Bool.and_eq_true, beq_iff_eq, decide_eq_true_iff, Nat.pow_one]
+  omega
+
+open CkbVerif.Gen.RulesBody in
+/-- A hash-type byte passes the cellbase witness / cellbase output-lock test iff it is one of the four
+enabled values; in particular `6` (`Data3`: known to `ScriptHashType`, not enabled) and `3` (unknown)
+are refused. -/
+theorem hash_type_enabled_iff (v : Nat) : hashTypeEnabled v = true ↔ v = 0 ∨ v = 1 ∨ v = 2 ∨ v = 4 := by
+  unfold hashTypeEnabled hashTypeInEnabledSet
+  rw [Bool.and_eq_true, hash_type_known_iff]
+  simp only [ENABLED_HASH_TYPE_0, ENABLED_HASH_TYPE_1, ENABLED_HASH_TYPE_2, ENABLED_HASH_TYPE_3_LAST,
+    Bool.or_eq_true, beq_iff_eq]
+  omega
+
+example : hashTypeEnabled 4 = true ∧ hashTypeEnabled 6 = false ∧ hashTypeKnown 6 = true ∧ hashTypeKnown 3 = false ∧
+    hashTypeKnown 254 = true ∧ hashTypeKnown 255 = false := by decide
+
+/-- **The cellbase features the rule model reads are derived from the transactions inside the
+model**: `CellbaseVerifier` over the feature record built by `Blk.withTxs` is the structural check
+that follows `block_verifier.rs` branch by branch (`is_cellbase` count, position, output / data
+quantity, data emptiness, witness parse + hash type, type script, output lock hash types, the
+whole-input comparison with `new_cellbase_input(number)`). -/
+theorem cellbase_check_is_structural (b : Blk) (txs : List Tx) :
+    cellbaseCheck (b.withTxs txs) = cellbaseCheckBody b.number txs :=
+  cellbaseCheck_withTxs b txs
+
+/-- **`CellbaseVerifier` accepts a non-genesis block iff** its first transaction is the only one
+with the cellbase shape (one input, the null out-point, exactly one witness), has at most one
+output and as many data fields as outputs, every data field empty, a well-formed `CellbaseWitness`
+whose lock has an enabled hash type, no type script, enabled lock hash types on the outputs, and
+`since = number` on its input. -/
+theorem cellbase_accept_iff (n : Nat) (hn : n ≠ 0) (txs : List Tx) :
+    cellbaseCheckBody n txs = none ↔
+      ∃ cb rest, txs = cb :: rest ∧ cb.isCellbase = true ∧ (∀ t ∈ rest, t.isCellbase = false) ∧
+        cb.outputs.length ≤ 1 ∧ cb.datas.length = cb.outputs.length ∧ (∀ d ∈ cb.datas, d = 0) ∧
+        (∃ ht, cb.wit0 = .lock ht ∧ hashTypeEnabled ht = true) ∧
+        (∀ o ∈ cb.outputs, o.hasType = false ∧ hashTypeEnabled o.lockHashType = true) ∧
+        cb.inputs = [⟨true, n⟩] ∧ cb.nWitnesses = 1 := by
+  unfold cellbaseCheckBody
+  simp only [beq_iff_eq, hn, if_false]
+  cases txs with
+  | nil => simp
+  | cons cb rest =>
+    have hone := one_cellbase_first_iff cb rest
+    have hwit : cb.cbWitnessOk = true ↔ ∃ ht, cb.wit0 = .lock ht ∧ hashTypeEnabled ht = true := by
+      unfold Tx.cbWitnessOk
+      cases cb.wit0 <;> simp
+    have hdat : firstDataEmpty cb.datas = true → cb.datas.length ≤ 1 → ∀ d ∈ cb.datas, d = 0 := by
+      intro h hl d hd
+      cases hds : cb.datas with
+      | nil => rw [hds] at hd; cases hd
+      | cons x xs =>
+        rw [hds] at h hl hd
+        have : xs = [] := by
+          cases xs with
+          | nil => rfl
+          | cons _ _ => simp at hl
+        subst this
+        simp [firstDataEmpty] at hd h; omega
+    have hdat' : (∀ d ∈ cb.datas, d = 0) → firstDataEmpty cb.datas = true := by
+      intro h
+      cases hds : cb.datas with
+      | nil => rfl
+      | cons x xs => simp [firstDataEmpty, h x (by simp [hds])]
+    constructor
+    · intro h
+      by_cases hq : (List.filter Tx.isCellbase (cb :: rest)).length = 1
+      · have hq' : ((List.filter Tx.isCellbase (cb :: rest)).length != 1) = false := by simp [hq]
+        simp only [hq', Bool.false_eq_true, if_false] at h
+        by_cases hc : cb.isCellbase = true
+        · simp only [hc, Bool.not_true, Bool.false_eq_true, if_false] at h
+          obtain ⟨s, hin, hw1⟩ := (isCellbase_iff cb).mp hc
+          have hrest := (hone.mp ⟨hq, hc⟩).2
+          refine ⟨cb, rest, rfl, hc, hrest, ?_⟩
+          have h1 : cb.outputs.length ≤ 1 ∧ cb.datas.length ≤ 1 ∧ cb.outputs.length = cb.datas.length := by grind
+          have h2 : firstDataEmpty cb.datas = true := by grind
+          have h3 : cb.cbWitnessOk = true := by grind
+          have h4 : (cb.outputs.any (·.hasType)) = false := by grind
+          have h5 : (cb.outputs.all fun o => hashTypeEnabled o.lockHashType) = true := by grind
+          have h6 : cb.inputs.head? = some ⟨true, n⟩ := by grind
+          refine ⟨h1.1, h1.2.2.symm, hdat h2 h1.2.1, hwit.mp h3, ?_, ?_, hw1⟩
+          · intro o ho
+            exact ⟨by simpa using (List.any_eq_false.mp h4) o ho, (List.all_eq_true.mp h5) o ho⟩
+          · rw [hin] at h6 ⊢
+            simp at h6; simp [h6]
+        · simp [hc] at h
+      · have hq' : ((List.filter Tx.isCellbase (cb :: rest)).length != 1) = true := by simpa using hq
+        simp [hq'] at h
+    · rintro ⟨cb', rest', heq, hc, hrest, ho, hd, hde, hw, hout, hin, _⟩
+      obtain ⟨rfl, rfl⟩ := List.cons.inj heq
+      have hq := (hone.mpr ⟨hc, hrest⟩).1
+      have hq' : ((List.filter Tx.isCellbase (cb :: rest)).length != 1) = false := by simp [hq]
+      have h4 : (cb.outputs.any (·.hasType)) = false := by
+        apply List.any_eq_false.mpr; intro o ho'; simp [(hout o ho').1]
+      have h5 : (cb.outputs.all fun o => hashTypeEnabled o.lockHashType) = true :=
+        List.all_eq_true.mpr fun o ho' => (hout o ho').2
+      have h2 := hdat' hde
+      have h3 := hwit.mpr hw
+      simp only [hq', Bool.false_eq_true, if_false, hc, Bool.not_true, h2, h3, h4, h5, hin, List.head?_cons]
+      have : (decide (cb.outputs.length > 1) || decide (cb.datas.length > 1) || cb.outputs.length != cb.datas.length) = false := by
+        simp only [Bool.or_eq_false_iff, decide_eq_false_iff_not, bne_eq_false_iff_eq]
+        omega
+      simp [this]
+
+/-- a valid two-transaction body; the same body with a second cellbase-shaped transaction, a
+two-witness "cellbase", a `Data3` witness lock, a `since` one off -/
+example :
+    let cb : Tx := { id := 1, inputs := [⟨true, 7⟩], outputs := [⟨false, 1⟩], datas := [0], nWitnesses := 1, wit0 := .lock 2 }
+    let t : Tx := { id := 2, shortId := 9, inputs := [⟨false, 0⟩], outputs := [⟨false, 0⟩], datas := [0], nWitnesses := 1 }
+    (cellbaseCheckBody 7 [cb, t] = none ∧
+     cellbaseCheckBody 7 [cb, { t with inputs := [⟨true, 0⟩] }] = some .cbQuantity ∧
+     cellbaseCheckBody 7 [{ cb with nWitnesses := 2 }, t] = some .cbQuantity ∧
+     cellbaseCheckBody 7 [t, cb] = some .cbPosition ∧
+     cellbaseCheckBody 7 [{ cb with wit0 := .lock 6 }, t] = some .cbWitness ∧
+     cellbaseCheckBody 7 [{ cb with wit0 := .malformed }, t] = some .cbWitness ∧
+     cellbaseCheckBody 7 [{ cb with outputs := [⟨false, 6⟩] }, t] = some .cbOutputLock ∧
+     cellbaseCheckBody 7 [{ cb with outputs := [], datas := [0] }, t] = some .cbOutputQuantity ∧
+     cellbaseCheckBody 7 [{ cb with inputs := [⟨true, 8⟩] }, t] = some .cbInput ∧
+     (({ number := 7 } : Blk).withTxs [cb, t]).committed = [9]) := by decide
+
+/-- `DuplicateVerifier`: the two `seen.insert` scans pass iff the transaction hashes, resp. the
+proposal ids, are pairwise distinct. -/
+theorem duplicate_rules_iff_nodup (cfg : Cfg) (b : Blk) (h : nonContextualCheck cfg b = none) :
+    b.txIds.Nodup ∧ b.proposals.Nodup := by
+  have hr := (nonContextual_iff_rules cfg b).mp h
+  have h1 := hr (.txDuplicate, !hasDup b.txIds) (by simp [nonContextualRules])
+  have h2 := hr (.proposalDuplicate, !hasDup b.proposals) (by simp [nonContextualRules])
+  exact ⟨(hasDup_false_iff_nodup _).mp (by simpa using h1), (hasDup_false_iff_nodup _).mp (by simpa using h2)⟩
+
+theorem has_dup_iff_not_nodup (l : List Nat) : hasDup l = true ↔ ¬ l.Nodup := by
+  rw [← hasDup_false_iff_nodup]; cases hasDup l <;> simp
+
+example : hasDup [3, 1, 3] = true ∧ hasDup [3, 1, 2] = false := by decide
+
+/-- `RewardVerifier`'s probe cell (`CellOutput { capacity: total, lock: target_lock }`): the finalized
+reward is "insufficient to create a cell" iff it is below the occupied capacity of the probe — the
+8-byte capacity field plus the lock's `32 + 1 + args` bytes, in shannons; at exactly that amount
+the reward must be paid. `none` (an overflow of the checked byte→shannon arithmetic) is an error. -/
+theorem reward_lack_spec (total args occ : Nat) (h : probeOccupied args = some occ) :
+    rewardLack total args = some (decide (total < occ)) := by
+  unfold rewardLack; rw [h]; rfl
+
+/-- **`BlockExtensionVerifier` accepts iff**: no extra field and rfc0044 not active, or exactly one
+extra field that is a `Bytes` of 1 ..= 96 bytes and — when rfc0044 is active — at least 32 bytes
+whose first 32 are the chain root of the parent chain; and in both cases the header's `extra_hash`
+commits to the uncles and the extension. -/
+theorem extension_accept_iff (cfg : Cfg) (b : Blk) :
+    extensionCheck cfg b = none ↔
+      ((b.extraFields = 0 ∧ cfg.mmrActive = false) ∨
+       (b.extraFields = 1 ∧ ∃ len, b.extLen = some len ∧ 1 ≤ len ∧ len ≤ cfg.extMax ∧
+          (cfg.mmrActive = true → cfg.extMinRoot ≤ len ∧ b.rootOk = true))) ∧ b.extraHashOk = true := by
+  unfold extensionCheck
+  rcases h : b.extraFields with _ | _ | n
+  · simp only []; grind
+  · simp only []
+    cases hl : b.extLen with
+    | none => simp
+    | some len => simp only []; grind
+  · simp
+
+example : extensionCheck {} { extLen := some 96 } = none ∧ extensionCheck {} { extLen := some 97 } = some .extensionTooLong ∧
+    extensionCheck {} { extLen := some 31 } = some .invalidExtension ∧ extensionCheck {} { extLen := some 32, rootOk := false } = some .invalidChainRoot ∧
+    extensionCheck {} { extraFields := 0 } = some .noExtension ∧ extensionCheck { mmrActive := false } { extraFields := 0 } = none := by decide
+
+/-! ## the multi-step statement over the histories of the property's quantifier -/
+
+/-- what every external entry point (RPC `submit_block`, sync `SendBlock`, compact-block
+reconstruction) guarantees about the `BlockView` it hands to the chain service: it was built by
+`into_view()`, which derives `transactions_root`, `proposals_hash` and `extra_hash` from the body -/
+def ViaIntoView (b : Blk) : Prop := b.txRootOk = true ∧ b.proposalsHashOk = true ∧ b.extraHashOk = true
+
+instance (b : Blk) : Decidable (ViaIntoView b) := by unfold ViaIntoView; infer_instance
+
+/-- collision-free hashing (the substrate assumption of C03): the header hash determines the
+header, and roots derived from a body determine that body — so two delivered `BlockView`s with
+derived roots and the same hash are the same block -/
+def CollisionFree (bs : List Blk) : Prop :=
+  ∀ b ∈ bs, ∀ b' ∈ bs, ViaIntoView b → ViaIntoView b' → b.id = b'.id → b = b'
+
+/-- **Every main-chain block passed all three stages in the context of its own ancestor chain,
+after ANY history of submissions a miner or peer can produce** (valid and invalid blocks, side
+branches, failed attempts, reorgs, re-deliveries, in any order), from the genesis block — under
+the substrate assumption only (collision-free hashing).
+
+This is `main_chain_blocks_passed_all_stages_partial` with its `OneBody` hypothesis discharged:
+`OneBody` follows from collision-freeness because every delivered `BlockView` has roots derived
+from its body. The quantifier still excludes in-process callers that hand the chain service a
+`BlockView` whose roots do not match its body (`build_unchecked`): for those the statement is false
+for the code as it is (`marked_invalid_inprocess_witness`, corpus F13–F15). -/
+theorem main_chain_blocks_passed_all_stages (cfg : Cfg) (g : Blk) (hg0 : g.number = 0) (hgv : ViaIntoView g)
+    (ops : List (Nat × Blk)) (hview : ∀ o ∈ ops, ViaIntoView o.2) (hcf : CollisionFree (g :: ops.map (·.2))) :
+    let s := run cfg (St.init g) ops
+    ∀ x ∈ mainChain s, x.number ≠ 0 →
+      ∃ p, findBlk s.stored x.parent = some p ∧ p ∈ mainChain s ∧
+        (∃ now, headerCheck cfg (headerCxOf cfg s.stored now x) x = none) ∧
+        nonContextualCheck cfg x = none ∧
+        contextualCheck cfg (cxOf s.stored p) x = none := by
+  have hall : ∀ b ∈ g :: ops.map (·.2), ViaIntoView b := by
+    intro b hb
+    rcases List.mem_cons.mp hb with rfl | hb
+    · exact hgv
+    · obtain ⟨o, ho, rfl⟩ := List.mem_map.mp hb
+      exact hview o ho
+  have hob : OneBody (g :: ops.map (·.2)) := fun b hb b' hb' hid => hcf b hb b' hb' (hall b hb) (hall b' hb') hid
+  exact main_chain_blocks_passed_all_stages_partial cfg g hg0 ops hob
+
+/-- non-vacuity: the history of `s3` (side block with a wrong DAO field, its refused child, the
+honest continuation) consists of `into_view` blocks with distinct hashes -/
+example :
+    let ops : List (Nat × Blk) := [(200, mk 1 0 1 101), (200, mk 2 1 2 102), (200, { mk 3 1 2 103 with daoEq := false }),
+      (200, mk 4 3 3 104), (200, mk 5 2 3 104), (200, mk 2 1 2 102)]
+    ViaIntoView g0 ∧ (∀ o ∈ ops, ViaIntoView o.2) ∧
+    ((g0 :: ops.map (·.2)).map (·.id) = [0, 1, 2, 3, 4, 5, 2]) ∧
+    (mainChain (run cfg0 (St.init g0) ops)).map (·.id) = [5, 2, 1, 0] := by
+  refine ⟨by decide, by decide, by decide, by decide⟩
 
 end CkbVerif.C03
